@@ -50,6 +50,7 @@ VARIABLES beh,       \* client -> behaviour
           tim,       \* alive-timer goroutine per packet conn: "none", "closing", "done"
           closers,   \* who is inside tcpPacketConn.Close: slot -> [ph, tgt, fst]
           rmS, clS, clTodo,
+          c2S,       \* a second Close call made while the first is under way: "idle", "want" (before m.mu.Lock()), "wait" (in wg.Wait()), "ret"
           handles,   \* packet conn ids returned by GetConnByUfrag, in call order
           delivered, \* id -> what the application has read from it: <<client, frame>> (frame 0: an error)
           seenClosed,\* id -> the application's ReadFrom reported the connection closed
@@ -57,7 +58,10 @@ VARIABLES beh,       \* client -> behaviour
           gets, rms, adv, reps,
           races      \* environment actions so far that did not wait for the mux to become idle
 vars == <<beh, cst, sent, pipe, sclosed, rx, hc, hcT, hcP, rd, rdK, att, pcs, npc, map, mu, mclosed, lclosed, acc, wg,
-          wat, tim, closers, rmS, clS, clTodo, handles, delivered, seenClosed, stale, gets, rms, adv, reps, races>>
+          wat, tim, closers, rmS, clS, clTodo, handles, delivered, seenClosed, stale, gets, rms, adv, reps, races, c2S>>
+\* everything but races and c2S
+mvars == <<beh, cst, sent, pipe, sclosed, rx, hc, hcT, hcP, rd, rdK, att, pcs, npc, map, mu, mclosed, lclosed, acc, wg,
+           wat, tim, closers, rmS, clS, clTodo, handles, delivered, seenClosed, stale, gets, rms, adv, reps>>
 cvars == <<beh, cst, sent, pipe, rx>>
 Off == 9   \* a disarmed countdown
 
@@ -71,7 +75,7 @@ Init ==
   /\ mu = "free" /\ mclosed = FALSE /\ lclosed = FALSE /\ acc = "run" /\ wg = 1
   /\ wat = [i \in Ids |-> "none"] /\ tim = [i \in Ids |-> "none"]
   /\ closers = [s \in Slots |-> Idle]
-  /\ rmS = "idle" /\ clS = "idle" /\ clTodo = {}
+  /\ rmS = "idle" /\ clS = "idle" /\ clTodo = {} /\ c2S = "idle"
   /\ handles = <<>> /\ delivered = [i \in Ids |-> <<>>] /\ seenClosed = [i \in Ids |-> FALSE]
   /\ stale = FALSE /\ gets = 0 /\ rms = 0 /\ adv = 0 /\ reps = 0 /\ races = 0
 
@@ -248,10 +252,11 @@ CloseLock == /\ clS = "idle" /\ mu = "free" /\ mu' = "cl" /\ mclosed' = TRUE /\ 
              /\ clTodo' = {map[u] : u \in Ufrags} \ {0}
              /\ UNCHANGED <<cvars, sclosed, hc, hcT, hcP, rd, rdK, att, pcs, npc, map, lclosed, acc, wg, wat, tim,
                             closers, rmS, handles, delivered, seenClosed, stale, gets, rms, adv, reps>>
-ClosePick(i) == /\ clS = "pcs" /\ i \in clTodo /\ StartClose("cl", i) /\ clTodo' = clTodo \ {i}
+InSweep == clS = "pcs" \/ c2S = "pcs"
+ClosePick(i) == /\ InSweep /\ i \in clTodo /\ StartClose("cl", i) /\ clTodo' = clTodo \ {i}
                 /\ UNCHANGED <<cvars, hc, hcT, hcP, rd, rdK, att, npc, map, mu, mclosed, lclosed, acc, wg, wat, tim,
                                rmS, clS, handles, delivered, seenClosed, stale, gets, rms, adv, reps>>
-ClosePcDone == /\ clS = "pcs" /\ FinishClose("cl")
+ClosePcDone == /\ InSweep /\ FinishClose("cl")
                /\ UNCHANGED <<cvars, sclosed, hc, hcT, hcP, rd, rdK, att, npc, map, mu, mclosed, lclosed, acc, wg, wat, tim,
                               rmS, clS, clTodo, handles, delivered, seenClosed, stale, gets, rms, adv, reps>>
 CloseUnlock == /\ clS = "pcs" /\ clTodo = {} /\ closers["cl"].ph = "idle"
@@ -261,6 +266,23 @@ CloseUnlock == /\ clS = "pcs" /\ clTodo = {} /\ closers["cl"].ph = "idle"
 CloseRet == /\ clS = "wait" /\ wg = 0 /\ clS' = "ret"
             /\ UNCHANGED <<cvars, sclosed, hc, hcT, hcP, rd, rdK, att, pcs, npc, map, mu, mclosed, lclosed, acc, wg, wat, tim,
                            closers, rmS, clTodo, handles, delivered, seenClosed, stale, gets, rms, adv, reps>>
+
+\* A second Close while the first is under way (the owner and a MultiTCPMux both closing, a deferred Close on another
+\* goroutine). Whichever call locks m.mu first is the one modelled above. The other does the same work once it gets the
+\* lock (the first holds it from CloseLock to CloseUnlock): it closes whatever is listed by then - a connection accepted
+\* just before the first Close registers its packet conn after that call's sweep, createConn does not look at m.closed -
+\* closes the listener again (an error, no effect) and then waits for the WaitGroup: it too returns only when every
+\* goroutine has ended. The sweep state (clTodo, closer slot "cl") is shared: m.mu admits one sweep at a time.
+Close2Begin == clS # "idle" /\ c2S = "idle" /\ c2S' = "want" /\ UNCHANGED mvars
+Close2Lock == /\ c2S = "want" /\ mu = "free" /\ mclosed /\ mu' = "cl" /\ c2S' = "pcs"
+              /\ clTodo' = {map[u] : u \in Ufrags} \ {0}
+              /\ UNCHANGED <<cvars, sclosed, hc, hcT, hcP, rd, rdK, att, pcs, npc, map, mclosed, lclosed, acc, wg, wat, tim,
+                             closers, rmS, clS, handles, delivered, seenClosed, stale, gets, rms, adv, reps>>
+Close2Unlock == /\ c2S = "pcs" /\ clTodo = {} /\ closers["cl"].ph = "idle"
+                /\ map' = [u \in Ufrags |-> 0] /\ mu' = "free" /\ c2S' = "wait"
+                /\ UNCHANGED <<cvars, sclosed, hc, hcT, hcP, rd, rdK, att, pcs, npc, mclosed, lclosed, acc, wg, wat, tim,
+                               closers, rmS, clS, clTodo, handles, delivered, seenClosed, stale, gets, rms, adv, reps>>
+Close2Ret == c2S = "wait" /\ wg = 0 /\ c2S' = "ret" /\ UNCHANGED mvars
 
 \* ---------------------------------------------------------------- time
 TimerDue == (\E c \in Clients : hc[c] = "wait" /\ hcT[c] = 0) \/ (\E i \in Ids : pcs[i].prov /\ pcs[i].timer = 0 /\ tim[i] = "none")
@@ -273,10 +295,11 @@ Advance == /\ adv < MaxAdv /\ ~TimerDue /\ adv' = adv + 1
 
 \* ---------------------------------------------------------------- next-state relation
 \* steps of the mux's own goroutines and of calls that are already inside the mux
-Internal == \/ AcceptExit
+Internal0 == \/ AcceptExit
             \/ \E c \in Clients : HcRead(c) \/ HcFail(c) \/ HcLookup(c) \/ HcAdd(c) \/ RdFirst(c) \/ RdRead(c) \/ RdPush(c)
             \/ \E i \in Ids : WatWake(i) \/ WatRemove(i) \/ WatDone(i) \/ TimerFire(i) \/ TimerDone(i) \/ AppRead(i) \/ ClosePick(i)
             \/ RemoveEnd \/ ClosePcDone \/ CloseUnlock \/ CloseRet
+Internal == (Internal0 /\ UNCHANGED c2S) \/ ((Close2Lock \/ Close2Unlock \/ Close2Ret) /\ UNCHANGED races)
 \* what the environment (clients, application, clock) starts
 External == \/ \E c \in Clients : Dial(c) \/ ClientSend(c) \/ ClientClose(c)
             \/ \E u \in Ufrags : Get(u) \/ RemoveBegin(u)
@@ -300,18 +323,21 @@ Busy == \/ acc = "run" /\ lclosed
               \/ pcs[i].prov /\ pcs[i].timer = 0 /\ tim[i] = "none"
               \/ tim[i] = "closing" /\ CanFinish(TSlot(i))
               \/ Claimed(i) /\ ~seenClosed[i] /\ (pcs[i].q # <<>> \/ pcs[i].rclosed)
-              \/ clS = "pcs" /\ i \in clTodo /\ closers["cl"].ph = "idle"
+              \/ InSweep /\ i \in clTodo /\ closers["cl"].ph = "idle"
         \/ rmS = "closing" /\ CanFinish("rm")
-        \/ clS = "pcs" /\ (CanFinish("cl") \/ (clTodo = {} /\ closers["cl"].ph = "idle"))
+        \/ InSweep /\ (CanFinish("cl") \/ (clTodo = {} /\ closers["cl"].ph = "idle"))
         \/ clS = "wait" /\ wg = 0
+        \/ c2S = "want" /\ mu = "free" /\ mclosed
+        \/ c2S = "wait" /\ wg = 0
 Quiet == ~Busy
-BusyIsEnabled == Busy <=> ENABLED Internal
+BusyIsEnabled == Busy <=> ENABLED (Internal /\ UNCHANGED races)
 \* environment actions so far
 Ext == Cardinality({c \in Clients : cst[c] # "idle"}) + Cardinality({c \in Clients : cst[c] = "closed" /\ beh[c] # "earlyclose"})
-       + gets + rms + adv + reps + (IF clS = "idle" THEN 0 ELSE 1)
+       + gets + rms + adv + reps + (IF clS = "idle" THEN 0 ELSE 1) + (IF c2S = "idle" THEN 0 ELSE 1)
        + Cardinality({c \in Clients : sent[c] > 1}) + Cardinality({c \in Clients : sent[c] > 0 /\ beh[c] = "late"})
-EnvOK == /\ Ext < MaxExt /\ (Quiet \/ races < MaxRaces) /\ races' = (IF Quiet THEN races ELSE races + 1)
-MuxOK == UNCHANGED races
+EnvOK0 == /\ Ext < MaxExt /\ (Quiet \/ races < MaxRaces) /\ races' = (IF Quiet THEN races ELSE races + 1)
+EnvOK == EnvOK0 /\ UNCHANGED c2S
+MuxOK == UNCHANGED <<races, c2S>>
 \* one named step per action, so that TLC's traces and coverage name them
 SAcceptExit == AcceptExit /\ MuxOK
 SHcRead(c) == HcRead(c) /\ MuxOK
@@ -332,6 +358,9 @@ SRemoveEnd == RemoveEnd /\ MuxOK
 SClosePcDone == ClosePcDone /\ MuxOK
 SCloseUnlock == CloseUnlock /\ MuxOK
 SCloseRet == CloseRet /\ MuxOK
+SClose2Lock == Close2Lock /\ UNCHANGED races
+SClose2Unlock == Close2Unlock /\ UNCHANGED races
+SClose2Ret == Close2Ret /\ UNCHANGED races
 EDial(c) == Dial(c) /\ EnvOK
 EClientSend(c) == ClientSend(c) /\ EnvOK
 EClientClose(c) == ClientClose(c) /\ EnvOK
@@ -339,11 +368,12 @@ EGet(u) == Get(u) /\ EnvOK
 ERemove(u) == RemoveBegin(u) /\ EnvOK
 EReply(i, c) == Reply(i, c) /\ EnvOK
 EClose == CloseLock /\ EnvOK
+EClose2 == Close2Begin /\ EnvOK0
 EAdvance == Advance /\ EnvOK
-MuxStep == \/ SAcceptExit \/ SRemoveEnd \/ SClosePcDone \/ SCloseUnlock \/ SCloseRet
+MuxStep == \/ SAcceptExit \/ SRemoveEnd \/ SClosePcDone \/ SCloseUnlock \/ SCloseRet \/ SClose2Lock \/ SClose2Unlock \/ SClose2Ret
            \/ \E c \in Clients : SHcRead(c) \/ SHcFail(c) \/ SHcLookup(c) \/ SHcAdd(c) \/ SRdFirst(c) \/ SRdRead(c) \/ SRdPush(c)
            \/ \E i \in Ids : SWatWake(i) \/ SWatRemove(i) \/ SWatDone(i) \/ STimerFire(i) \/ STimerDone(i) \/ SAppRead(i) \/ SClosePick(i)
-EnvStep == \/ EClose \/ EAdvance
+EnvStep == \/ EClose \/ EClose2 \/ EAdvance
            \/ \E c \in Clients : EDial(c) \/ EClientSend(c) \/ EClientClose(c)
            \/ \E u \in Ufrags : EGet(u) \/ ERemove(u)
            \/ \E i \in Ids, c \in Clients : EReply(i, c)
@@ -381,12 +411,12 @@ WgCounts == wg = (IF acc = "run" THEN 1 ELSE 0) + Cardinality({c \in Clients : h
 \* by m.wg left (accept loop, handleConn, watchers), every packet conn closed; a reader goroutine of a packet conn
 \* may still be on its way out only if that packet conn is closed (its closer - e.g. a concurrent Remove - waits for it)
 CloseCompletes ==
-  clS = "ret" => /\ lclosed /\ acc = "done"
+  (clS = "ret" \/ c2S = "ret") => /\ lclosed /\ acc = "done"
                  /\ \A c \in Clients : cst[c] # "idle" => /\ sclosed[c] /\ hc[c] = "done"
                                                           /\ rd[c] \in {"none", "done"} \/ pcs[att[c]].closed
                  /\ \A i \in 1..npc : wat[i] = "done" /\ pcs[i].closed
 \* and Close does return: while it is under way the mux is never stuck except waiting for a timer
-CloseProgress == (clS \in {"pcs", "wait"} /\ Quiet) => (\E c \in Clients : hc[c] = "wait") \/ (\E i \in Ids : pcs[i].prov)
+CloseProgress == ((clS \in {"pcs", "wait"} \/ c2S \in {"want", "pcs", "wait"}) /\ Quiet) => (\E c \in Clients : hc[c] = "wait") \/ (\E i \in Ids : pcs[i].prov)
 \* a watcher goroutine only ever unlists its own packet conn
 NoStaleRemoval == ~stale
 \* a packet conn handed to the application is closed only by Remove, Close, or an alive timer that fired before it was claimed
